@@ -17,6 +17,7 @@ class TCase:
         self.ops = []      # (tokens, result tokens, rng words)
         self.h = []        # (iv|None, val|None, fin)
         self.x = []        # oracle failures: (prop, msg)
+        self.hang = False
         self.l = []        # t-digest limit table: (n, q0 bits, limit bits)
         self.s = []        # scale function calls: (kind, in bits, n, out bits)
 
@@ -49,6 +50,9 @@ def parse_transcript(text):
         elif line.startswith('X '):
             t = line.split(' ', 2)
             cur.x.append((t[1], t[2] if len(t) > 2 else ''))
+        elif line == 'HANG':
+            cur.x.append(('*', 'the crate did not return within the time limit (non-termination)'))
+            cur.hang = True
         elif line.startswith('END'):
             cases.append(cur)
             cur = None
@@ -69,11 +73,41 @@ def build_harness(profile='debug', log=None):
         return None, r.stderr
     return os.path.join(HARNESS, 'target', profile, 'pdsdrive'), ''
 
-def run_harness(binary, casefile, timeout=600):
-    r = subprocess.run([binary, casefile], capture_output=True, text=True, timeout=timeout)
-    if r.returncode != 0:
-        raise RuntimeError('harness failed: ' + r.stderr[-2000:])
-    return r.stdout
+def run_harness(binary, casefile, timeout=900, case_ms=5000):
+    """runs all cases; a case on which the crate does not return (exit status 3 after a HANG record) is
+    recorded and the run resumes with the cases after it"""
+    out = []
+    lines = open(casefile).read().split('\n')
+    # split into cases
+    cases, cur = [], []
+    for ln in lines:
+        if ln.startswith('CASE '):
+            cur = [ln]
+        elif ln == 'END':
+            cur.append(ln); cases.append(cur); cur = []
+        elif cur:
+            cur.append(ln)
+    start, path, hangs = 0, casefile, 0
+    t0 = time.time()
+    while True:
+        r = subprocess.run([binary, path], capture_output=True, text=True, timeout=max(30, timeout - (time.time() - t0)),
+                           env=dict(os.environ, PDS_CASE_TIMEOUT_MS=str(case_ms)))
+        out.append(r.stdout)
+        if r.returncode == 0:
+            break
+        if r.returncode == 3:
+            done = r.stdout.count('\nEND') + (1 if r.stdout.startswith('END') else 0)
+            hangs += 1
+            start += done
+            if start >= len(cases) or hangs >= 6:
+                break   # enough non-terminating cases seen: the rest of the file is not run
+            path = casefile + '.rest'
+            with open(path, 'w') as f:
+                for c in cases[start:]:
+                    f.write('\n'.join(c) + '\n')
+            continue
+        raise RuntimeError('harness failed (rc=%d): %s' % (r.returncode, r.stderr[-2000:]))
+    return ''.join(out)
 
 # ---------------------------------------------------------------- model input (numeric form for ocaml/driver.ml)
 
